@@ -71,11 +71,9 @@ pub(crate) mod verif_array {
         ev::register(&coll_node, cclass, cout);
         let pn = ev::register(&pred_node, 1, &*null_v as *const Value);
         ev::set_multi(pn);
-        let mut j = 0;
-        while j < 3 {
-            ev::set_multi_outcome_num(j, if (ppat >> j) & 1 == 1 { 1 } else { 0 }, &*pvals[j] as *const Value, p[j]);
-            j += 1;
-        }
+        ev::set_multi_outcome_num(0, if ppat & 1 == 1 { 1 } else { 0 }, &*pvals[0] as *const Value, p[0]);
+        ev::set_multi_outcome_num(1, if (ppat >> 1) & 1 == 1 { 1 } else { 0 }, &*pvals[1] as *const Value, p[1]);
+        ev::set_multi_outcome_num(2, if (ppat >> 2) & 1 == 1 { 1 } else { 0 }, &*pvals[2] as *const Value, p[2]);
         if mode == M_LIT_ARRAY {
             if let Value::Array(v) = &*coll_node {
                 let mut j = 0;
@@ -159,9 +157,9 @@ pub(crate) mod verif_array {
         }
     }
     macro_rules! quant_harness {
-        ($name:ident, $is_all:expr, $mode:expr, $n:expr, $epat:expr, $ppat:expr) => {
+        ($name:ident, $is_all:expr, $mode:expr, $n:expr, $epat:expr, $ppat:expr, $uw:expr) => {
             #[cfg_attr(kani, kani::proof)]
-            #[cfg_attr(kani, kani::unwind(10))]
+            #[cfg_attr(kani, kani::unwind($uw))]
             #[cfg_attr(kani, kani::stub(<serde_json::Value as std::clone::Clone>::clone, crate::verif_support::value_clone_shallow))]
             #[cfg_attr(kani, kani::stub(crate::value::Parsed::from_value, crate::value::Parsed::verif_from_value_stub))]
             #[cfg_attr(kani, kani::stub(crate::value::Parsed::evaluate, crate::value::Parsed::verif_evaluate_stub))]
@@ -172,96 +170,96 @@ pub(crate) mod verif_array {
         };
     }
 //@GENERATED-QUANT
-    //@ob name=C14.all.lit.2.e3.p3 harness=k_c14_all_lit_2_e3_p3 props=C14,C04,C06,C01 tier=quick strength=bounded bound="collection written as a literal array of expressions; 2 elements; element/predicate success pattern e=0b11 p=0b11; values and predicate answers symbolic" fns=op::array::all stubs=4 timeout=200 cutdrop=1 group=medium
+    //@ob name=C14.all.lit.2.e3.p3 harness=k_c14_all_lit_2_e3_p3 props=C14,C04,C06,C01 tier=off strength=bounded bound="collection written as a literal array of expressions; 2 elements; element/predicate success pattern e=0b11 p=0b11; values and predicate answers symbolic" fns=op::array::all stubs=4 timeout=200 cutdrop=1 group=medium
     //@ desc="all: truth value, error cases, short-circuit evaluation log and scoping (literal-array elements evaluated against the outer data, computed elements passed as data UNPARSED, predicate sees the element) equal the spec"
-    quant_harness!(k_c14_all_lit_2_e3_p3, true, 0, 2, 3, 3);
-    //@ob name=C14.all.cnew.2.e3.p3 harness=k_c14_all_cnew_2_e3_p3 props=C14,C04,C06,C01 tier=quick strength=bounded bound="collection computed (fresh array); 2 elements; element/predicate success pattern e=0b11 p=0b11; values and predicate answers symbolic" fns=op::array::all stubs=4 timeout=200 cutdrop=2 group=medium
+    quant_harness!(k_c14_all_lit_2_e3_p3, true, 0, 2, 3, 3, 5);
+    //@ob name=C14.all.cnew.2.e3.p3 harness=k_c14_all_cnew_2_e3_p3 props=C14,C04,C06,C01 tier=off strength=bounded bound="collection computed (fresh array); 2 elements; element/predicate success pattern e=0b11 p=0b11; values and predicate answers symbolic" fns=op::array::all stubs=4 timeout=200 cutdrop=2 group=medium
     //@ desc="all: truth value, error cases, short-circuit evaluation log and scoping (literal-array elements evaluated against the outer data, computed elements passed as data UNPARSED, predicate sees the element) equal the spec"
-    quant_harness!(k_c14_all_cnew_2_e3_p3, true, 1, 2, 3, 3);
-    //@ob name=C14.all.craw.1.e1.p1 harness=k_c14_all_craw_1_e1_p1 props=C14,C04,C06,C01 tier=quick strength=bounded bound="collection computed (borrowed array); 1 elements; element/predicate success pattern e=0b1 p=0b1; values and predicate answers symbolic" fns=op::array::all stubs=4 timeout=200 cutdrop=2 group=medium
+    quant_harness!(k_c14_all_cnew_2_e3_p3, true, 1, 2, 3, 3, 5);
+    //@ob name=C14.all.craw.1.e1.p1 harness=k_c14_all_craw_1_e1_p1 props=C14,C04,C06,C01 tier=off strength=bounded bound="collection computed (borrowed array); 1 elements; element/predicate success pattern e=0b1 p=0b1; values and predicate answers symbolic" fns=op::array::all stubs=4 timeout=200 cutdrop=2 group=medium
     //@ desc="all: truth value, error cases, short-circuit evaluation log and scoping (literal-array elements evaluated against the outer data, computed elements passed as data UNPARSED, predicate sees the element) equal the spec"
-    quant_harness!(k_c14_all_craw_1_e1_p1, true, 2, 1, 1, 1);
+    quant_harness!(k_c14_all_craw_1_e1_p1, true, 2, 1, 1, 1, 4);
     //@ob name=C14.all.lit.0.e0.p0 harness=k_c14_all_lit_0_e0_p0 props=C14,C04,C06,C01 tier=quick strength=bounded bound="empty literal array; 0 elements; element/predicate success pattern e=0b0 p=0b0; values and predicate answers symbolic" fns=op::array::all stubs=4 timeout=200 cutdrop=1 group=medium
     //@ desc="all: truth value, error cases, short-circuit evaluation log and scoping (literal-array elements evaluated against the outer data, computed elements passed as data UNPARSED, predicate sees the element) equal the spec"
-    quant_harness!(k_c14_all_lit_0_e0_p0, true, 0, 0, 0, 0);
-    //@ob name=C14.all.lit.1.e1.p1 harness=k_c14_all_lit_1_e1_p1 props=C14,C04,C06,C01 tier=quick strength=bounded bound="literal array of one expression; 1 elements; element/predicate success pattern e=0b1 p=0b1; values and predicate answers symbolic" fns=op::array::all stubs=4 timeout=200 cutdrop=1 group=medium
+    quant_harness!(k_c14_all_lit_0_e0_p0, true, 0, 0, 0, 0, 3);
+    //@ob name=C14.all.lit.1.e1.p1 harness=k_c14_all_lit_1_e1_p1 props=C14,C04,C06,C01 tier=off strength=bounded bound="literal array of one expression; 1 elements; element/predicate success pattern e=0b1 p=0b1; values and predicate answers symbolic" fns=op::array::all stubs=4 timeout=200 cutdrop=1 group=medium
     //@ desc="all: truth value, error cases, short-circuit evaluation log and scoping (literal-array elements evaluated against the outer data, computed elements passed as data UNPARSED, predicate sees the element) equal the spec"
-    quant_harness!(k_c14_all_lit_1_e1_p1, true, 0, 1, 1, 1);
-    //@ob name=C14.all.cnew.1.e1.p1 harness=k_c14_all_cnew_1_e1_p1 props=C14,C04,C06,C01 tier=quick strength=bounded bound="computed array of one (fresh); 1 elements; element/predicate success pattern e=0b1 p=0b1; values and predicate answers symbolic" fns=op::array::all stubs=4 timeout=200 cutdrop=2 group=medium
+    quant_harness!(k_c14_all_lit_1_e1_p1, true, 0, 1, 1, 1, 4);
+    //@ob name=C14.all.cnew.1.e1.p1 harness=k_c14_all_cnew_1_e1_p1 props=C14,C04,C06,C01 tier=off strength=bounded bound="computed array of one (fresh); 1 elements; element/predicate success pattern e=0b1 p=0b1; values and predicate answers symbolic" fns=op::array::all stubs=4 timeout=200 cutdrop=2 group=medium
     //@ desc="all: truth value, error cases, short-circuit evaluation log and scoping (literal-array elements evaluated against the outer data, computed elements passed as data UNPARSED, predicate sees the element) equal the spec"
-    quant_harness!(k_c14_all_cnew_1_e1_p1, true, 1, 1, 1, 1);
+    quant_harness!(k_c14_all_cnew_1_e1_p1, true, 1, 1, 1, 1, 4);
     //@ob name=C14.all.litnull.0.e0.p0 harness=k_c14_all_litnull_0_e0_p0 props=C14,C04,C06,C01 tier=quick strength=bounded bound="literal null; 0 elements; element/predicate success pattern e=0b0 p=0b0; values and predicate answers symbolic" fns=op::array::all stubs=4 timeout=200 cutdrop=1 group=medium
     //@ desc="all: truth value, error cases, short-circuit evaluation log and scoping (literal-array elements evaluated against the outer data, computed elements passed as data UNPARSED, predicate sees the element) equal the spec"
-    quant_harness!(k_c14_all_litnull_0_e0_p0, true, 3, 0, 0, 0);
+    quant_harness!(k_c14_all_litnull_0_e0_p0, true, 3, 0, 0, 0, 3);
     //@ob name=C14.all.cnull.0.e0.p0 harness=k_c14_all_cnull_0_e0_p0 props=C14,C04,C06,C01 tier=quick strength=bounded bound="computed null; 0 elements; element/predicate success pattern e=0b0 p=0b0; values and predicate answers symbolic" fns=op::array::all stubs=4 timeout=200 cutdrop=2 group=medium
     //@ desc="all: truth value, error cases, short-circuit evaluation log and scoping (literal-array elements evaluated against the outer data, computed elements passed as data UNPARSED, predicate sees the element) equal the spec"
-    quant_harness!(k_c14_all_cnull_0_e0_p0, true, 4, 0, 0, 0);
+    quant_harness!(k_c14_all_cnull_0_e0_p0, true, 4, 0, 0, 0, 3);
     //@ob name=C14.all.litnum.0.e0.p0 harness=k_c14_all_litnum_0_e0_p0 props=C14,C04,C06,C01 tier=quick strength=bounded bound="literal number (not a collection); 0 elements; element/predicate success pattern e=0b0 p=0b0; values and predicate answers symbolic" fns=op::array::all stubs=4 timeout=200 cutdrop=1 group=medium
     //@ desc="all: truth value, error cases, short-circuit evaluation log and scoping (literal-array elements evaluated against the outer data, computed elements passed as data UNPARSED, predicate sees the element) equal the spec"
-    quant_harness!(k_c14_all_litnum_0_e0_p0, true, 5, 0, 0, 0);
+    quant_harness!(k_c14_all_litnum_0_e0_p0, true, 5, 0, 0, 0, 3);
     //@ob name=C14.all.cerr.0.e0.p0 harness=k_c14_all_cerr_0_e0_p0 props=C14,C04,C06,C01 tier=thorough strength=bounded bound="collection evaluation fails; 0 elements; element/predicate success pattern e=0b0 p=0b0; values and predicate answers symbolic" fns=op::array::all stubs=4 timeout=200 cutdrop=2 group=medium
     //@ desc="all: truth value, error cases, short-circuit evaluation log and scoping (literal-array elements evaluated against the outer data, computed elements passed as data UNPARSED, predicate sees the element) equal the spec"
-    quant_harness!(k_c14_all_cerr_0_e0_p0, true, 6, 0, 0, 0);
+    quant_harness!(k_c14_all_cerr_0_e0_p0, true, 6, 0, 0, 0, 3);
     //@ob name=C14.all.cbool.0.e0.p0 harness=k_c14_all_cbool_0_e0_p0 props=C14,C04,C06,C01 tier=thorough strength=bounded bound="computed boolean (not a collection); 0 elements; element/predicate success pattern e=0b0 p=0b0; values and predicate answers symbolic" fns=op::array::all stubs=4 timeout=200 cutdrop=2 group=medium
     //@ desc="all: truth value, error cases, short-circuit evaluation log and scoping (literal-array elements evaluated against the outer data, computed elements passed as data UNPARSED, predicate sees the element) equal the spec"
-    quant_harness!(k_c14_all_cbool_0_e0_p0, true, 7, 0, 0, 0);
-    //@ob name=C14.all.lit.2.e1.p3 harness=k_c14_all_lit_2_e1_p3 props=C14,C04,C06,C01 tier=thorough strength=bounded bound="literal array, second element expression fails; 2 elements; element/predicate success pattern e=0b1 p=0b11; values and predicate answers symbolic" fns=op::array::all stubs=4 timeout=200 cutdrop=1 group=medium
+    quant_harness!(k_c14_all_cbool_0_e0_p0, true, 7, 0, 0, 0, 3);
+    //@ob name=C14.all.lit.2.e1.p3 harness=k_c14_all_lit_2_e1_p3 props=C14,C04,C06,C01 tier=off strength=bounded bound="literal array, second element expression fails; 2 elements; element/predicate success pattern e=0b1 p=0b11; values and predicate answers symbolic" fns=op::array::all stubs=4 timeout=200 cutdrop=1 group=medium
     //@ desc="all: truth value, error cases, short-circuit evaluation log and scoping (literal-array elements evaluated against the outer data, computed elements passed as data UNPARSED, predicate sees the element) equal the spec"
-    quant_harness!(k_c14_all_lit_2_e1_p3, true, 0, 2, 1, 3);
-    //@ob name=C14.all.cnew.2.e3.p1 harness=k_c14_all_cnew_2_e3_p1 props=C14,C04,C06,C01 tier=thorough strength=bounded bound="computed array, second predicate call fails; 2 elements; element/predicate success pattern e=0b11 p=0b1; values and predicate answers symbolic" fns=op::array::all stubs=4 timeout=200 cutdrop=2 group=medium
+    quant_harness!(k_c14_all_lit_2_e1_p3, true, 0, 2, 1, 3, 5);
+    //@ob name=C14.all.cnew.2.e3.p1 harness=k_c14_all_cnew_2_e3_p1 props=C14,C04,C06,C01 tier=off strength=bounded bound="computed array, second predicate call fails; 2 elements; element/predicate success pattern e=0b11 p=0b1; values and predicate answers symbolic" fns=op::array::all stubs=4 timeout=200 cutdrop=2 group=medium
     //@ desc="all: truth value, error cases, short-circuit evaluation log and scoping (literal-array elements evaluated against the outer data, computed elements passed as data UNPARSED, predicate sees the element) equal the spec"
-    quant_harness!(k_c14_all_cnew_2_e3_p1, true, 1, 2, 3, 1);
-    //@ob name=C14.all.lit.3.e7.p7 harness=k_c14_all_lit_3_e7_p7 props=C14,C04,C06,C01 tier=thorough strength=bounded bound="literal array of three; 3 elements; element/predicate success pattern e=0b111 p=0b111; values and predicate answers symbolic" fns=op::array::all stubs=4 timeout=200 cutdrop=1 group=medium
+    quant_harness!(k_c14_all_cnew_2_e3_p1, true, 1, 2, 3, 1, 5);
+    //@ob name=C14.all.lit.3.e7.p7 harness=k_c14_all_lit_3_e7_p7 props=C14,C04,C06,C01 tier=off strength=bounded bound="literal array of three; 3 elements; element/predicate success pattern e=0b111 p=0b111; values and predicate answers symbolic" fns=op::array::all stubs=4 timeout=200 cutdrop=1 group=medium
     //@ desc="all: truth value, error cases, short-circuit evaluation log and scoping (literal-array elements evaluated against the outer data, computed elements passed as data UNPARSED, predicate sees the element) equal the spec"
-    quant_harness!(k_c14_all_lit_3_e7_p7, true, 0, 3, 7, 7);
-    //@ob name=C14.all.cnew.3.e7.p7 harness=k_c14_all_cnew_3_e7_p7 props=C14,C04,C06,C01 tier=thorough strength=bounded bound="computed array of three; 3 elements; element/predicate success pattern e=0b111 p=0b111; values and predicate answers symbolic" fns=op::array::all stubs=4 timeout=200 cutdrop=2 group=medium
+    quant_harness!(k_c14_all_lit_3_e7_p7, true, 0, 3, 7, 7, 6);
+    //@ob name=C14.all.cnew.3.e7.p7 harness=k_c14_all_cnew_3_e7_p7 props=C14,C04,C06,C01 tier=off strength=bounded bound="computed array of three; 3 elements; element/predicate success pattern e=0b111 p=0b111; values and predicate answers symbolic" fns=op::array::all stubs=4 timeout=200 cutdrop=2 group=medium
     //@ desc="all: truth value, error cases, short-circuit evaluation log and scoping (literal-array elements evaluated against the outer data, computed elements passed as data UNPARSED, predicate sees the element) equal the spec"
-    quant_harness!(k_c14_all_cnew_3_e7_p7, true, 1, 3, 7, 7);
-    //@ob name=C14.some.lit.2.e3.p3 harness=k_c14_some_lit_2_e3_p3 props=C14,C04,C06,C01 tier=quick strength=bounded bound="collection written as a literal array of expressions; 2 elements; element/predicate success pattern e=0b11 p=0b11; values and predicate answers symbolic" fns=op::array::some stubs=4 timeout=200 cutdrop=1 group=medium
+    quant_harness!(k_c14_all_cnew_3_e7_p7, true, 1, 3, 7, 7, 6);
+    //@ob name=C14.some.lit.2.e3.p3 harness=k_c14_some_lit_2_e3_p3 props=C14,C04,C06,C01 tier=off strength=bounded bound="collection written as a literal array of expressions; 2 elements; element/predicate success pattern e=0b11 p=0b11; values and predicate answers symbolic" fns=op::array::some stubs=4 timeout=200 cutdrop=1 group=medium
     //@ desc="some: truth value, error cases, short-circuit evaluation log and scoping (literal-array elements evaluated against the outer data, computed elements passed as data UNPARSED, predicate sees the element) equal the spec"
-    quant_harness!(k_c14_some_lit_2_e3_p3, false, 0, 2, 3, 3);
-    //@ob name=C14.some.cnew.2.e3.p3 harness=k_c14_some_cnew_2_e3_p3 props=C14,C04,C06,C01 tier=quick strength=bounded bound="collection computed (fresh array); 2 elements; element/predicate success pattern e=0b11 p=0b11; values and predicate answers symbolic" fns=op::array::some stubs=4 timeout=200 cutdrop=2 group=medium
+    quant_harness!(k_c14_some_lit_2_e3_p3, false, 0, 2, 3, 3, 5);
+    //@ob name=C14.some.cnew.2.e3.p3 harness=k_c14_some_cnew_2_e3_p3 props=C14,C04,C06,C01 tier=off strength=bounded bound="collection computed (fresh array); 2 elements; element/predicate success pattern e=0b11 p=0b11; values and predicate answers symbolic" fns=op::array::some stubs=4 timeout=200 cutdrop=2 group=medium
     //@ desc="some: truth value, error cases, short-circuit evaluation log and scoping (literal-array elements evaluated against the outer data, computed elements passed as data UNPARSED, predicate sees the element) equal the spec"
-    quant_harness!(k_c14_some_cnew_2_e3_p3, false, 1, 2, 3, 3);
-    //@ob name=C14.some.craw.1.e1.p1 harness=k_c14_some_craw_1_e1_p1 props=C14,C04,C06,C01 tier=quick strength=bounded bound="collection computed (borrowed array); 1 elements; element/predicate success pattern e=0b1 p=0b1; values and predicate answers symbolic" fns=op::array::some stubs=4 timeout=200 cutdrop=2 group=medium
+    quant_harness!(k_c14_some_cnew_2_e3_p3, false, 1, 2, 3, 3, 5);
+    //@ob name=C14.some.craw.1.e1.p1 harness=k_c14_some_craw_1_e1_p1 props=C14,C04,C06,C01 tier=off strength=bounded bound="collection computed (borrowed array); 1 elements; element/predicate success pattern e=0b1 p=0b1; values and predicate answers symbolic" fns=op::array::some stubs=4 timeout=200 cutdrop=2 group=medium
     //@ desc="some: truth value, error cases, short-circuit evaluation log and scoping (literal-array elements evaluated against the outer data, computed elements passed as data UNPARSED, predicate sees the element) equal the spec"
-    quant_harness!(k_c14_some_craw_1_e1_p1, false, 2, 1, 1, 1);
+    quant_harness!(k_c14_some_craw_1_e1_p1, false, 2, 1, 1, 1, 4);
     //@ob name=C14.some.lit.0.e0.p0 harness=k_c14_some_lit_0_e0_p0 props=C14,C04,C06,C01 tier=quick strength=bounded bound="empty literal array; 0 elements; element/predicate success pattern e=0b0 p=0b0; values and predicate answers symbolic" fns=op::array::some stubs=4 timeout=200 cutdrop=1 group=medium
     //@ desc="some: truth value, error cases, short-circuit evaluation log and scoping (literal-array elements evaluated against the outer data, computed elements passed as data UNPARSED, predicate sees the element) equal the spec"
-    quant_harness!(k_c14_some_lit_0_e0_p0, false, 0, 0, 0, 0);
-    //@ob name=C14.some.lit.1.e1.p1 harness=k_c14_some_lit_1_e1_p1 props=C14,C04,C06,C01 tier=quick strength=bounded bound="literal array of one expression; 1 elements; element/predicate success pattern e=0b1 p=0b1; values and predicate answers symbolic" fns=op::array::some stubs=4 timeout=200 cutdrop=1 group=medium
+    quant_harness!(k_c14_some_lit_0_e0_p0, false, 0, 0, 0, 0, 3);
+    //@ob name=C14.some.lit.1.e1.p1 harness=k_c14_some_lit_1_e1_p1 props=C14,C04,C06,C01 tier=off strength=bounded bound="literal array of one expression; 1 elements; element/predicate success pattern e=0b1 p=0b1; values and predicate answers symbolic" fns=op::array::some stubs=4 timeout=200 cutdrop=1 group=medium
     //@ desc="some: truth value, error cases, short-circuit evaluation log and scoping (literal-array elements evaluated against the outer data, computed elements passed as data UNPARSED, predicate sees the element) equal the spec"
-    quant_harness!(k_c14_some_lit_1_e1_p1, false, 0, 1, 1, 1);
-    //@ob name=C14.some.cnew.1.e1.p1 harness=k_c14_some_cnew_1_e1_p1 props=C14,C04,C06,C01 tier=quick strength=bounded bound="computed array of one (fresh); 1 elements; element/predicate success pattern e=0b1 p=0b1; values and predicate answers symbolic" fns=op::array::some stubs=4 timeout=200 cutdrop=2 group=medium
+    quant_harness!(k_c14_some_lit_1_e1_p1, false, 0, 1, 1, 1, 4);
+    //@ob name=C14.some.cnew.1.e1.p1 harness=k_c14_some_cnew_1_e1_p1 props=C14,C04,C06,C01 tier=off strength=bounded bound="computed array of one (fresh); 1 elements; element/predicate success pattern e=0b1 p=0b1; values and predicate answers symbolic" fns=op::array::some stubs=4 timeout=200 cutdrop=2 group=medium
     //@ desc="some: truth value, error cases, short-circuit evaluation log and scoping (literal-array elements evaluated against the outer data, computed elements passed as data UNPARSED, predicate sees the element) equal the spec"
-    quant_harness!(k_c14_some_cnew_1_e1_p1, false, 1, 1, 1, 1);
+    quant_harness!(k_c14_some_cnew_1_e1_p1, false, 1, 1, 1, 1, 4);
     //@ob name=C14.some.litnull.0.e0.p0 harness=k_c14_some_litnull_0_e0_p0 props=C14,C04,C06,C01 tier=quick strength=bounded bound="literal null; 0 elements; element/predicate success pattern e=0b0 p=0b0; values and predicate answers symbolic" fns=op::array::some stubs=4 timeout=200 cutdrop=1 group=medium
     //@ desc="some: truth value, error cases, short-circuit evaluation log and scoping (literal-array elements evaluated against the outer data, computed elements passed as data UNPARSED, predicate sees the element) equal the spec"
-    quant_harness!(k_c14_some_litnull_0_e0_p0, false, 3, 0, 0, 0);
+    quant_harness!(k_c14_some_litnull_0_e0_p0, false, 3, 0, 0, 0, 3);
     //@ob name=C14.some.cnull.0.e0.p0 harness=k_c14_some_cnull_0_e0_p0 props=C14,C04,C06,C01 tier=quick strength=bounded bound="computed null; 0 elements; element/predicate success pattern e=0b0 p=0b0; values and predicate answers symbolic" fns=op::array::some stubs=4 timeout=200 cutdrop=2 group=medium
     //@ desc="some: truth value, error cases, short-circuit evaluation log and scoping (literal-array elements evaluated against the outer data, computed elements passed as data UNPARSED, predicate sees the element) equal the spec"
-    quant_harness!(k_c14_some_cnull_0_e0_p0, false, 4, 0, 0, 0);
+    quant_harness!(k_c14_some_cnull_0_e0_p0, false, 4, 0, 0, 0, 3);
     //@ob name=C14.some.litnum.0.e0.p0 harness=k_c14_some_litnum_0_e0_p0 props=C14,C04,C06,C01 tier=quick strength=bounded bound="literal number (not a collection); 0 elements; element/predicate success pattern e=0b0 p=0b0; values and predicate answers symbolic" fns=op::array::some stubs=4 timeout=200 cutdrop=1 group=medium
     //@ desc="some: truth value, error cases, short-circuit evaluation log and scoping (literal-array elements evaluated against the outer data, computed elements passed as data UNPARSED, predicate sees the element) equal the spec"
-    quant_harness!(k_c14_some_litnum_0_e0_p0, false, 5, 0, 0, 0);
+    quant_harness!(k_c14_some_litnum_0_e0_p0, false, 5, 0, 0, 0, 3);
     //@ob name=C14.some.cerr.0.e0.p0 harness=k_c14_some_cerr_0_e0_p0 props=C14,C04,C06,C01 tier=thorough strength=bounded bound="collection evaluation fails; 0 elements; element/predicate success pattern e=0b0 p=0b0; values and predicate answers symbolic" fns=op::array::some stubs=4 timeout=200 cutdrop=2 group=medium
     //@ desc="some: truth value, error cases, short-circuit evaluation log and scoping (literal-array elements evaluated against the outer data, computed elements passed as data UNPARSED, predicate sees the element) equal the spec"
-    quant_harness!(k_c14_some_cerr_0_e0_p0, false, 6, 0, 0, 0);
+    quant_harness!(k_c14_some_cerr_0_e0_p0, false, 6, 0, 0, 0, 3);
     //@ob name=C14.some.cbool.0.e0.p0 harness=k_c14_some_cbool_0_e0_p0 props=C14,C04,C06,C01 tier=thorough strength=bounded bound="computed boolean (not a collection); 0 elements; element/predicate success pattern e=0b0 p=0b0; values and predicate answers symbolic" fns=op::array::some stubs=4 timeout=200 cutdrop=2 group=medium
     //@ desc="some: truth value, error cases, short-circuit evaluation log and scoping (literal-array elements evaluated against the outer data, computed elements passed as data UNPARSED, predicate sees the element) equal the spec"
-    quant_harness!(k_c14_some_cbool_0_e0_p0, false, 7, 0, 0, 0);
-    //@ob name=C14.some.lit.2.e1.p3 harness=k_c14_some_lit_2_e1_p3 props=C14,C04,C06,C01 tier=thorough strength=bounded bound="literal array, second element expression fails; 2 elements; element/predicate success pattern e=0b1 p=0b11; values and predicate answers symbolic" fns=op::array::some stubs=4 timeout=200 cutdrop=1 group=medium
+    quant_harness!(k_c14_some_cbool_0_e0_p0, false, 7, 0, 0, 0, 3);
+    //@ob name=C14.some.lit.2.e1.p3 harness=k_c14_some_lit_2_e1_p3 props=C14,C04,C06,C01 tier=off strength=bounded bound="literal array, second element expression fails; 2 elements; element/predicate success pattern e=0b1 p=0b11; values and predicate answers symbolic" fns=op::array::some stubs=4 timeout=200 cutdrop=1 group=medium
     //@ desc="some: truth value, error cases, short-circuit evaluation log and scoping (literal-array elements evaluated against the outer data, computed elements passed as data UNPARSED, predicate sees the element) equal the spec"
-    quant_harness!(k_c14_some_lit_2_e1_p3, false, 0, 2, 1, 3);
-    //@ob name=C14.some.cnew.2.e3.p1 harness=k_c14_some_cnew_2_e3_p1 props=C14,C04,C06,C01 tier=thorough strength=bounded bound="computed array, second predicate call fails; 2 elements; element/predicate success pattern e=0b11 p=0b1; values and predicate answers symbolic" fns=op::array::some stubs=4 timeout=200 cutdrop=2 group=medium
+    quant_harness!(k_c14_some_lit_2_e1_p3, false, 0, 2, 1, 3, 5);
+    //@ob name=C14.some.cnew.2.e3.p1 harness=k_c14_some_cnew_2_e3_p1 props=C14,C04,C06,C01 tier=off strength=bounded bound="computed array, second predicate call fails; 2 elements; element/predicate success pattern e=0b11 p=0b1; values and predicate answers symbolic" fns=op::array::some stubs=4 timeout=200 cutdrop=2 group=medium
     //@ desc="some: truth value, error cases, short-circuit evaluation log and scoping (literal-array elements evaluated against the outer data, computed elements passed as data UNPARSED, predicate sees the element) equal the spec"
-    quant_harness!(k_c14_some_cnew_2_e3_p1, false, 1, 2, 3, 1);
-    //@ob name=C14.some.lit.3.e7.p7 harness=k_c14_some_lit_3_e7_p7 props=C14,C04,C06,C01 tier=thorough strength=bounded bound="literal array of three; 3 elements; element/predicate success pattern e=0b111 p=0b111; values and predicate answers symbolic" fns=op::array::some stubs=4 timeout=200 cutdrop=1 group=medium
+    quant_harness!(k_c14_some_cnew_2_e3_p1, false, 1, 2, 3, 1, 5);
+    //@ob name=C14.some.lit.3.e7.p7 harness=k_c14_some_lit_3_e7_p7 props=C14,C04,C06,C01 tier=off strength=bounded bound="literal array of three; 3 elements; element/predicate success pattern e=0b111 p=0b111; values and predicate answers symbolic" fns=op::array::some stubs=4 timeout=200 cutdrop=1 group=medium
     //@ desc="some: truth value, error cases, short-circuit evaluation log and scoping (literal-array elements evaluated against the outer data, computed elements passed as data UNPARSED, predicate sees the element) equal the spec"
-    quant_harness!(k_c14_some_lit_3_e7_p7, false, 0, 3, 7, 7);
-    //@ob name=C14.some.cnew.3.e7.p7 harness=k_c14_some_cnew_3_e7_p7 props=C14,C04,C06,C01 tier=thorough strength=bounded bound="computed array of three; 3 elements; element/predicate success pattern e=0b111 p=0b111; values and predicate answers symbolic" fns=op::array::some stubs=4 timeout=200 cutdrop=2 group=medium
+    quant_harness!(k_c14_some_lit_3_e7_p7, false, 0, 3, 7, 7, 6);
+    //@ob name=C14.some.cnew.3.e7.p7 harness=k_c14_some_cnew_3_e7_p7 props=C14,C04,C06,C01 tier=off strength=bounded bound="computed array of three; 3 elements; element/predicate success pattern e=0b111 p=0b111; values and predicate answers symbolic" fns=op::array::some stubs=4 timeout=200 cutdrop=2 group=medium
     //@ desc="some: truth value, error cases, short-circuit evaluation log and scoping (literal-array elements evaluated against the outer data, computed elements passed as data UNPARSED, predicate sees the element) equal the spec"
-    quant_harness!(k_c14_some_cnew_3_e7_p7, false, 1, 3, 7, 7);
+    quant_harness!(k_c14_some_cnew_3_e7_p7, false, 1, 3, 7, 7, 6);
 //@END-GENERATED-QUANT
 
     // ---- none == !some (some by contract: an arbitrary Result<Bool>)
@@ -338,11 +336,9 @@ pub(crate) mod verif_array {
         ev::register(&coll_node, cclass, cout);
         let xn = ev::register(&expr_node, 1, &*null_v as *const Value);
         ev::set_multi(xn);
-        let mut j = 0;
-        while j < 3 {
-            ev::set_multi_outcome_num(j, if (ppat >> j) & 1 == 1 { if j % 2 == 0 { 1 } else { 2 } } else { 0 }, &*pvals[j] as *const Value, p[j]);
-            j += 1;
-        }
+        ev::set_multi_outcome_num(0, if ppat & 1 == 1 { 1 } else { 0 }, &*pvals[0] as *const Value, p[0]);
+        ev::set_multi_outcome_num(1, if (ppat >> 1) & 1 == 1 { 2 } else { 0 }, &*pvals[1] as *const Value, p[1]);
+        ev::set_multi_outcome_num(2, if (ppat >> 2) & 1 == 1 { 1 } else { 0 }, &*pvals[2] as *const Value, p[2]);
         let mut args: Vec<&Value> = Vec::with_capacity(2);
         args.push(&*coll_node);
         args.push(&*expr_node);
@@ -403,9 +399,9 @@ pub(crate) mod verif_array {
         }
     }
     macro_rules! mapfilter_harness {
-        ($name:ident, $is_map:expr, $cmode:expr, $n:expr, $ppat:expr) => {
+        ($name:ident, $is_map:expr, $cmode:expr, $n:expr, $ppat:expr, $uw:expr) => {
             #[cfg_attr(kani, kani::proof)]
-            #[cfg_attr(kani, kani::unwind(10))]
+            #[cfg_attr(kani, kani::unwind($uw))]
             #[cfg_attr(kani, kani::stub(<serde_json::Value as std::clone::Clone>::clone, crate::verif_support::value_clone_shallow))]
             #[cfg_attr(kani, kani::stub(crate::value::Parsed::from_value, crate::value::Parsed::verif_from_value_stub))]
             #[cfg_attr(kani, kani::stub(crate::value::Parsed::evaluate, crate::value::Parsed::verif_evaluate_stub))]
@@ -416,54 +412,54 @@ pub(crate) mod verif_array {
         };
     }
 //@GENERATED-MAPFILTER
-    //@ob name=C13.map.new.2.p3 harness=k_c13_map_new_2_p3 props=C13,C04,C06,C01 tier=quick strength=bounded bound="collection outcome new; 2 elements; expression success pattern 0b11; element values and expression values symbolic" fns=op::array::map stubs=4 timeout=300 cutdrop=2 group=medium
+    //@ob name=C13.map.new.2.p3 harness=k_c13_map_new_2_p3 props=C13,C04,C06,C01 tier=off strength=bounded bound="collection outcome new; 2 elements; expression success pattern 0b11; element values and expression values symbolic" fns=op::array::map stubs=4 timeout=300 cutdrop=2 group=medium
     //@ desc="map: collection evaluated once against the outer data, expression once per element with the element itself as data, in order; result = the expression values in order (same length); null collection is empty, other non-arrays and failing evaluations are errors"
-    mapfilter_harness!(k_c13_map_new_2_p3, true, 0, 2, 3);
-    //@ob name=C13.map.raw.2.p3 harness=k_c13_map_raw_2_p3 props=C13,C04,C06,C01 tier=quick strength=bounded bound="collection outcome raw; 2 elements; expression success pattern 0b11; element values and expression values symbolic" fns=op::array::map stubs=4 timeout=300 cutdrop=2 group=medium
+    mapfilter_harness!(k_c13_map_new_2_p3, true, 0, 2, 3, 5);
+    //@ob name=C13.map.raw.2.p3 harness=k_c13_map_raw_2_p3 props=C13,C04,C06,C01 tier=off strength=bounded bound="collection outcome raw; 2 elements; expression success pattern 0b11; element values and expression values symbolic" fns=op::array::map stubs=4 timeout=300 cutdrop=2 group=medium
     //@ desc="map: collection evaluated once against the outer data, expression once per element with the element itself as data, in order; result = the expression values in order (same length); null collection is empty, other non-arrays and failing evaluations are errors"
-    mapfilter_harness!(k_c13_map_raw_2_p3, true, 1, 2, 3);
+    mapfilter_harness!(k_c13_map_raw_2_p3, true, 1, 2, 3, 5);
     //@ob name=C13.map.null.0.p0 harness=k_c13_map_null_0_p0 props=C13,C04,C06,C01 tier=quick strength=bounded bound="collection outcome null; 0 elements; expression success pattern 0b0; element values and expression values symbolic" fns=op::array::map stubs=4 timeout=300 cutdrop=2 group=medium
     //@ desc="map: collection evaluated once against the outer data, expression once per element with the element itself as data, in order; result = the expression values in order (same length); null collection is empty, other non-arrays and failing evaluations are errors"
-    mapfilter_harness!(k_c13_map_null_0_p0, true, 2, 0, 0);
+    mapfilter_harness!(k_c13_map_null_0_p0, true, 2, 0, 0, 3);
     //@ob name=C13.map.other.0.p0 harness=k_c13_map_other_0_p0 props=C13,C04,C06,C01 tier=quick strength=bounded bound="collection outcome other; 0 elements; expression success pattern 0b0; element values and expression values symbolic" fns=op::array::map stubs=4 timeout=300 cutdrop=2 group=medium
     //@ desc="map: collection evaluated once against the outer data, expression once per element with the element itself as data, in order; result = the expression values in order (same length); null collection is empty, other non-arrays and failing evaluations are errors"
-    mapfilter_harness!(k_c13_map_other_0_p0, true, 3, 0, 0);
+    mapfilter_harness!(k_c13_map_other_0_p0, true, 3, 0, 0, 3);
     //@ob name=C13.map.err.0.p0 harness=k_c13_map_err_0_p0 props=C13,C04,C06,C01 tier=thorough strength=bounded bound="collection outcome err; 0 elements; expression success pattern 0b0; element values and expression values symbolic" fns=op::array::map stubs=4 timeout=300 cutdrop=2 group=medium
     //@ desc="map: collection evaluated once against the outer data, expression once per element with the element itself as data, in order; result = the expression values in order (same length); null collection is empty, other non-arrays and failing evaluations are errors"
-    mapfilter_harness!(k_c13_map_err_0_p0, true, 4, 0, 0);
+    mapfilter_harness!(k_c13_map_err_0_p0, true, 4, 0, 0, 3);
     //@ob name=C13.map.new.0.p0 harness=k_c13_map_new_0_p0 props=C13,C04,C06,C01 tier=thorough strength=bounded bound="collection outcome new; 0 elements; expression success pattern 0b0; element values and expression values symbolic" fns=op::array::map stubs=4 timeout=300 cutdrop=2 group=medium
     //@ desc="map: collection evaluated once against the outer data, expression once per element with the element itself as data, in order; result = the expression values in order (same length); null collection is empty, other non-arrays and failing evaluations are errors"
-    mapfilter_harness!(k_c13_map_new_0_p0, true, 0, 0, 0);
-    //@ob name=C13.map.raw.2.p1 harness=k_c13_map_raw_2_p1 props=C13,C04,C06,C01 tier=thorough strength=bounded bound="collection outcome raw; 2 elements; expression success pattern 0b1; element values and expression values symbolic" fns=op::array::map stubs=4 timeout=300 cutdrop=2 group=medium
+    mapfilter_harness!(k_c13_map_new_0_p0, true, 0, 0, 0, 3);
+    //@ob name=C13.map.raw.2.p1 harness=k_c13_map_raw_2_p1 props=C13,C04,C06,C01 tier=off strength=bounded bound="collection outcome raw; 2 elements; expression success pattern 0b1; element values and expression values symbolic" fns=op::array::map stubs=4 timeout=300 cutdrop=2 group=medium
     //@ desc="map: collection evaluated once against the outer data, expression once per element with the element itself as data, in order; result = the expression values in order (same length); null collection is empty, other non-arrays and failing evaluations are errors"
-    mapfilter_harness!(k_c13_map_raw_2_p1, true, 1, 2, 1);
-    //@ob name=C13.map.new.3.p7 harness=k_c13_map_new_3_p7 props=C13,C04,C06,C01 tier=thorough strength=bounded bound="collection outcome new; 3 elements; expression success pattern 0b111; element values and expression values symbolic" fns=op::array::map stubs=4 timeout=300 cutdrop=2 group=medium
+    mapfilter_harness!(k_c13_map_raw_2_p1, true, 1, 2, 1, 5);
+    //@ob name=C13.map.new.3.p7 harness=k_c13_map_new_3_p7 props=C13,C04,C06,C01 tier=off strength=bounded bound="collection outcome new; 3 elements; expression success pattern 0b111; element values and expression values symbolic" fns=op::array::map stubs=4 timeout=300 cutdrop=2 group=medium
     //@ desc="map: collection evaluated once against the outer data, expression once per element with the element itself as data, in order; result = the expression values in order (same length); null collection is empty, other non-arrays and failing evaluations are errors"
-    mapfilter_harness!(k_c13_map_new_3_p7, true, 0, 3, 7);
-    //@ob name=C13.filter.new.2.p3 harness=k_c13_filter_new_2_p3 props=C13,C04,C06,C01 tier=quick strength=bounded bound="collection outcome new; 2 elements; expression success pattern 0b11; element values and expression values symbolic" fns=op::array::filter stubs=4 timeout=300 cutdrop=2 group=medium
+    mapfilter_harness!(k_c13_map_new_3_p7, true, 0, 3, 7, 6);
+    //@ob name=C13.filter.new.2.p3 harness=k_c13_filter_new_2_p3 props=C13,C04,C06,C01 tier=off strength=bounded bound="collection outcome new; 2 elements; expression success pattern 0b11; element values and expression values symbolic" fns=op::array::filter stubs=4 timeout=300 cutdrop=2 group=medium
     //@ desc="filter: collection evaluated once against the outer data, expression once per element with the element itself as data, in order; result = exactly the elements whose value is truthy, unchanged, in order; null collection is empty, other non-arrays and failing evaluations are errors"
-    mapfilter_harness!(k_c13_filter_new_2_p3, false, 0, 2, 3);
-    //@ob name=C13.filter.raw.2.p3 harness=k_c13_filter_raw_2_p3 props=C13,C04,C06,C01 tier=quick strength=bounded bound="collection outcome raw; 2 elements; expression success pattern 0b11; element values and expression values symbolic" fns=op::array::filter stubs=4 timeout=300 cutdrop=2 group=medium
+    mapfilter_harness!(k_c13_filter_new_2_p3, false, 0, 2, 3, 5);
+    //@ob name=C13.filter.raw.2.p3 harness=k_c13_filter_raw_2_p3 props=C13,C04,C06,C01 tier=off strength=bounded bound="collection outcome raw; 2 elements; expression success pattern 0b11; element values and expression values symbolic" fns=op::array::filter stubs=4 timeout=300 cutdrop=2 group=medium
     //@ desc="filter: collection evaluated once against the outer data, expression once per element with the element itself as data, in order; result = exactly the elements whose value is truthy, unchanged, in order; null collection is empty, other non-arrays and failing evaluations are errors"
-    mapfilter_harness!(k_c13_filter_raw_2_p3, false, 1, 2, 3);
+    mapfilter_harness!(k_c13_filter_raw_2_p3, false, 1, 2, 3, 5);
     //@ob name=C13.filter.null.0.p0 harness=k_c13_filter_null_0_p0 props=C13,C04,C06,C01 tier=quick strength=bounded bound="collection outcome null; 0 elements; expression success pattern 0b0; element values and expression values symbolic" fns=op::array::filter stubs=4 timeout=300 cutdrop=2 group=medium
     //@ desc="filter: collection evaluated once against the outer data, expression once per element with the element itself as data, in order; result = exactly the elements whose value is truthy, unchanged, in order; null collection is empty, other non-arrays and failing evaluations are errors"
-    mapfilter_harness!(k_c13_filter_null_0_p0, false, 2, 0, 0);
+    mapfilter_harness!(k_c13_filter_null_0_p0, false, 2, 0, 0, 3);
     //@ob name=C13.filter.other.0.p0 harness=k_c13_filter_other_0_p0 props=C13,C04,C06,C01 tier=quick strength=bounded bound="collection outcome other; 0 elements; expression success pattern 0b0; element values and expression values symbolic" fns=op::array::filter stubs=4 timeout=300 cutdrop=2 group=medium
     //@ desc="filter: collection evaluated once against the outer data, expression once per element with the element itself as data, in order; result = exactly the elements whose value is truthy, unchanged, in order; null collection is empty, other non-arrays and failing evaluations are errors"
-    mapfilter_harness!(k_c13_filter_other_0_p0, false, 3, 0, 0);
+    mapfilter_harness!(k_c13_filter_other_0_p0, false, 3, 0, 0, 3);
     //@ob name=C13.filter.err.0.p0 harness=k_c13_filter_err_0_p0 props=C13,C04,C06,C01 tier=thorough strength=bounded bound="collection outcome err; 0 elements; expression success pattern 0b0; element values and expression values symbolic" fns=op::array::filter stubs=4 timeout=300 cutdrop=2 group=medium
     //@ desc="filter: collection evaluated once against the outer data, expression once per element with the element itself as data, in order; result = exactly the elements whose value is truthy, unchanged, in order; null collection is empty, other non-arrays and failing evaluations are errors"
-    mapfilter_harness!(k_c13_filter_err_0_p0, false, 4, 0, 0);
+    mapfilter_harness!(k_c13_filter_err_0_p0, false, 4, 0, 0, 3);
     //@ob name=C13.filter.new.0.p0 harness=k_c13_filter_new_0_p0 props=C13,C04,C06,C01 tier=thorough strength=bounded bound="collection outcome new; 0 elements; expression success pattern 0b0; element values and expression values symbolic" fns=op::array::filter stubs=4 timeout=300 cutdrop=2 group=medium
     //@ desc="filter: collection evaluated once against the outer data, expression once per element with the element itself as data, in order; result = exactly the elements whose value is truthy, unchanged, in order; null collection is empty, other non-arrays and failing evaluations are errors"
-    mapfilter_harness!(k_c13_filter_new_0_p0, false, 0, 0, 0);
-    //@ob name=C13.filter.raw.2.p1 harness=k_c13_filter_raw_2_p1 props=C13,C04,C06,C01 tier=thorough strength=bounded bound="collection outcome raw; 2 elements; expression success pattern 0b1; element values and expression values symbolic" fns=op::array::filter stubs=4 timeout=300 cutdrop=2 group=medium
+    mapfilter_harness!(k_c13_filter_new_0_p0, false, 0, 0, 0, 3);
+    //@ob name=C13.filter.raw.2.p1 harness=k_c13_filter_raw_2_p1 props=C13,C04,C06,C01 tier=off strength=bounded bound="collection outcome raw; 2 elements; expression success pattern 0b1; element values and expression values symbolic" fns=op::array::filter stubs=4 timeout=300 cutdrop=2 group=medium
     //@ desc="filter: collection evaluated once against the outer data, expression once per element with the element itself as data, in order; result = exactly the elements whose value is truthy, unchanged, in order; null collection is empty, other non-arrays and failing evaluations are errors"
-    mapfilter_harness!(k_c13_filter_raw_2_p1, false, 1, 2, 1);
-    //@ob name=C13.filter.new.3.p7 harness=k_c13_filter_new_3_p7 props=C13,C04,C06,C01 tier=thorough strength=bounded bound="collection outcome new; 3 elements; expression success pattern 0b111; element values and expression values symbolic" fns=op::array::filter stubs=4 timeout=300 cutdrop=2 group=medium
+    mapfilter_harness!(k_c13_filter_raw_2_p1, false, 1, 2, 1, 5);
+    //@ob name=C13.filter.new.3.p7 harness=k_c13_filter_new_3_p7 props=C13,C04,C06,C01 tier=off strength=bounded bound="collection outcome new; 3 elements; expression success pattern 0b111; element values and expression values symbolic" fns=op::array::filter stubs=4 timeout=300 cutdrop=2 group=medium
     //@ desc="filter: collection evaluated once against the outer data, expression once per element with the element itself as data, in order; result = exactly the elements whose value is truthy, unchanged, in order; null collection is empty, other non-arrays and failing evaluations are errors"
-    mapfilter_harness!(k_c13_filter_new_3_p7, false, 0, 3, 7);
+    mapfilter_harness!(k_c13_filter_new_3_p7, false, 0, 3, 7, 6);
 //@END-GENERATED-MAPFILTER
 
     // =====================================================================================
